@@ -26,6 +26,7 @@
 
 #include <assert.h>
 #include <stdlib.h>
+#include <limits.h>
 #include <stdio.h>
 #include <stdint.h>
 #include <stdbool.h>
@@ -90,14 +91,13 @@ static void zck_clear(zckCtx *zck) {
 }
 
 static int hex_to_int (char c) {
-    if (c >= 97)
-        c = c - 32;
-    int result = (c / 16 - 3) * 10 + (c % 16);
-    if (result > 9)
-        result--;
-    if (result < 0 || result > 15)
-        return -1;
-    return result;
+    if (c >= '0' && c <= '9')
+        return c - '0';
+    if (c >= 'a' && c <= 'f')
+        return c - 'a' + 10;
+    if (c >= 'A' && c <= 'F')
+        return c - 'A' + 10;
+    return -1;
 }
 
 
@@ -327,6 +327,11 @@ bool ZCK_PUBLIC_API zck_set_ioption(zckCtx *zck, zck_ioption option, ssize_t val
         VALIDATE_READ_BOOL(zck);
         if(value < 0) {
             set_error(zck, "Header hash type can't be less than zero: %lli",
+                      (long long) value);
+            return false;
+        }
+        if(value > INT_MAX) {
+            set_error(zck, "Header hash type is too large: %lli",
                       (long long) value);
             return false;
         }
